@@ -70,7 +70,7 @@ func runC17(c *core.Ctx) {
 				return true
 			})
 		}
-		o.Require(nNodes >= 1 && nRoots >= 1, "expected non-root and root node literals, found %d/%d", nNodes, nRoots)
+		o.Shape(nNodes >= 1 && nRoots >= 1, "expected non-root and root node literals, found %d/%d", nNodes, nRoots)
 	})
 	c.Check("C17-R1", pk+".finish/root-only", "the reference handed out as the tree root was produced by a root writer (a node written as a non-root carries /Limits and must not become the root)", func(o *core.Ob) {
 		fn := c.Prog.Func(pk, "(*treeWriter).finish")
@@ -120,7 +120,7 @@ func runC17(c *core.Ctx) {
 				o.FailAt(fn.Site(rs, ""), "finish returns the node reference %s, which was written as a non-root node (with /Limits)", core.ExprStr(rs.Results[0]))
 			}
 		}
-		o.Require(n >= 1, "expected the root writers to be used, found %d", n)
+		o.Shape(n >= 1, "expected the root writers to be used, found %d", n)
 		// the single-leaf case is handled before collapse
 		src := c.Prog.Src(fn.Decl.Body)
 		o.Shape(strings.Contains(src, "iflen(w.tail)==1&&w.tail[0].depth==0{returnw.writeRootFromSingleLeaf(w.tail[0])}"), "a single completed leaf is not re-wrapped as a root")
@@ -242,7 +242,7 @@ func runC17(c *core.Ctx) {
 			}
 			return true
 		})
-		o.Require(loops >= 1, "the loop that feeds the entries to the writer was not found")
+		o.Shape(loops >= 1, "the loop that feeds the entries to the writer was not found")
 	})
 	c.Check("C17-R4", pk+".codecs", "a key codec decodes every key it can encode: decode has no key-dependent rejection, encode/decode use the matching PDF type", func(o *core.Ob) {
 		for _, t := range []string{"NameCodec", "NumCodec"} {
@@ -383,7 +383,7 @@ func rulePutOwnsObject(c *core.Ctx) {
 				}
 			}
 		}
-		o.Require(n >= 4, "expected at least four Put calls in the tree writer, found %d", n)
+		o.Shape(n >= 4, "expected at least four Put calls in the tree writer, found %d", n)
 	})
 }
 
